@@ -81,6 +81,8 @@ structure DState where
   hdrs : Headers := Headers.default
   routes : Routes := { serverId := [], prefix_ := [] }
   conn : Conn0 := Conn.new MAX_PAYLOAD_SIZE
+  /-- what is left of the last offer (`conn recv`) after the connection took what fitted -/
+  offer : List Byte := []
   srv : Srv := Srv.new
 
 def showOuts (outs : List (Out RequestLine Headers)) : String :=
@@ -187,8 +189,13 @@ def stepLine (st : DState) (line : String) : DState × String :=
     | some bs, some fds =>
       let n := if bs.isEmpty then 0 else takes P0 st.conn bs
       let (c', out) := tryRead P0 st.conn (.data bs fds)
-      ({ st with conn := c' }, s!"{out.show} n={n} pw={bool01 (pendingWrite c')}")
+      ({ st with conn := c', offer := bs.drop n }, s!"{out.show} n={n} pw={bool01 (pendingWrite c')}")
     | _, _ => (st, "bad-op")
+  | ["conn", "more"] =>
+    let bs := st.offer
+    let n := if bs.isEmpty then 0 else takes P0 st.conn bs
+    let (c', out) := tryRead P0 st.conn (.data bs [])
+    ({ st with conn := c', offer := bs.drop n }, s!"{out.show} n={n} pw={bool01 (pendingWrite c')}")
   | ["conn", "rerr", e] =>
     match e.toNat? with
     | some e =>
